@@ -109,11 +109,10 @@ def Muxer.writeVideo (m : Muxer) (pts : F64) (data : Bytes) (key : Bool) : Muxer
   if (match m.lastVideoPts with | some prev => F64.le pts prev | none => false) then
     (m, .err .nonIncreasingVideoPts (some idx)) else
   let t := pts.ticks
-  let m1 := if m.firstVideoPts.isNone then { m with firstVideoPts := some pts } else m
-  let (w', r) := m1.w.writeVideo t t data key
+  let (w', r) := m.w.writeVideo t t data key
   match r with
-  | .ok => ({ m1 with w := w', lastVideoPts := some pts, vCount := m1.vCount + 1 }, .ok)
-  | r => ({ m1 with w := w' }, wresReply r idx)
+  | .ok => ({ m with w := w', firstVideoPts := some (m.firstVideoPts.getD pts), lastVideoPts := some pts, vCount := m.vCount + 1 }, .ok)
+  | r => ({ m with w := w' }, wresReply r idx)
 
 /-- `write_video_with_dts` -/
 def Muxer.writeVideoDts (m : Muxer) (pts dts : F64) (data : Bytes) (key : Bool) : Muxer × Reply :=
@@ -128,11 +127,10 @@ def Muxer.writeVideoDts (m : Muxer) (pts dts : F64) (data : Bytes) (key : Bool) 
     (m, .err .nonIncreasingDts (some idx)) else
   let tp := pts.ticks
   let td := dts.ticks
-  let m1 := if m.firstVideoPts.isNone then { m with firstVideoPts := some pts } else m
-  let (w', r) := m1.w.writeVideo tp td data key
+  let (w', r) := m.w.writeVideo tp td data key
   match r with
-  | .ok => ({ m1 with w := w', lastVideoPts := some pts, lastVideoDts := some dts, vCount := m1.vCount + 1 }, .ok)
-  | r => ({ m1 with w := w' }, wresReply r idx)
+  | .ok => ({ m with w := w', firstVideoPts := some (m.firstVideoPts.getD pts), lastVideoPts := some pts, lastVideoDts := some dts, vCount := m.vCount + 1 }, .ok)
+  | r => ({ m with w := w' }, wresReply r idx)
 
 /-- `write_audio` -/
 def Muxer.writeAudio (m : Muxer) (pts : F64) (data : Bytes) : Muxer × Reply :=
@@ -153,29 +151,21 @@ def Muxer.writeAudio (m : Muxer) (pts : F64) (data : Bytes) : Muxer × Reply :=
     | .ok => ({ m with w := w', lastAudioPts := some pts, aCount := m.aCount + 1 }, .ok)
     | r => ({ m with w := w' }, wresReply r idx)
 
-/-- `Muxer::is_keyframe` (private helper of `encode_video`); `none` = panic
-    (INV-100 on empty data, `nal[0]` on an empty NAL unit, INV-104). -/
-def Muxer.isKeyframe (m : Muxer) (data : Bytes) : Option Bool :=
-  if data = [] then none else
-  let scan (p : Bytes → Bool) : List Bytes → Option Bool :=
-    fun ns => ns.foldr (fun n acc => if n = [] then none else if p n then some true else acc) (some false)
+/-- `Muxer::is_keyframe` (private helper of `encode_video`) -/
+def Muxer.isKeyframe (m : Muxer) (data : Bytes) : Bool :=
+  if data = [] then false else
   match m.w.codec with
-  | .h264 => scan (fun n => h264NalType n = 5) (nals data)
-  | .h265 => scan (fun n => decide (19 ≤ hevcNalType n ∧ hevcNalType n ≤ 21)) (nals data)
-  | .av1 => some (m.vCount = 0)
-  | .vp9 =>
-    let k : Bool := match isVp9Keyframe data with | .ok b => b | _ => false
-    if k ∨ data.length ≥ 3 then some k else none
+  | .h264 => (nals data).any fun n => n ≠ [] && h264NalType n = 5
+  | .h265 => (nals data).any fun n => n ≠ [] && decide (19 ≤ hevcNalType n ∧ hevcNalType n ≤ 21)
+  | .av1 => m.vCount = 0
+  | .vp9 => if data.length < 3 then false else (match isVp9Keyframe data with | .ok b => b | _ => false)
 
 /-- `encode_video` -/
 def Muxer.encodeVideo (m : Muxer) (data : Bytes) (durationMs : Nat) : Muxer × Reply :=
-  match m.isKeyframe data with
-  | none => (m, .panic)
-  | some key =>
-    let (m', r) := m.writeVideo m.curV data key
-    match r with
-    | .ok => ({ m' with curV := F64.add m'.curV (F64.div (F64.ofNat durationMs) (F64.ofNat 1000)) }, .ok)
-    | r => (m', r)
+  let (m', r) := m.writeVideo m.curV data (m.isKeyframe data)
+  match r with
+  | .ok => ({ m' with curV := F64.add m'.curV (F64.div (F64.ofNat durationMs) (F64.ofNat 1000)) }, .ok)
+  | r => (m', r)
 
 /-- `encode_audio` -/
 def Muxer.encodeAudio (m : Muxer) (data : Bytes) (samples : Nat) : Muxer × Reply :=
@@ -209,11 +199,8 @@ def Muxer.finishStats (m : Muxer) (deliver : Deliver := deliverAll) : Muxer × F
     | .ioErr _ => (m1, out, .err .io none)
     | .ok =>
       let m2 := { m1 with finished := true }
-      match w''.maxEndPts with
-      | none => (m2, out, .panic)
-      | some endPts =>
-        (m2, out, .stats ⟨w''.vsRev.length, w''.asRev.length,
-          F64.div (F64.ofNat (endPts.getD 0)) (F64.ofNat 90000), w''.bytesWritten⟩)
+      (m2, out, .stats ⟨w''.vsRev.length, w''.asRev.length,
+          F64.div (F64.ofNat (w''.maxEndPts.getD 0)) (F64.ofNat 90000), w''.bytesWritten⟩)
 
 /-- `finish_in_place` -/
 def Muxer.finish (m : Muxer) (deliver : Deliver := deliverAll) : Muxer × FinOut × Reply :=
